@@ -157,6 +157,21 @@ def sources(ctx):
         out.append((f"{u}a{p1}{p2}", "postfix", None))
     for u, p, o in itertools.product(["-", "not ", ""], POSTFIX, ["**", "+", "~", "and", "<"]):
         out.append((f"{u}a{p} {o} {u}b{p}", "postfix-op", None))
+    # inline-if chains: the else branch nests to the right ("like Python"), an else-less tail is allowed
+    import itertools as _it
+    nm = lambda x: ("N", x)  # noqa: E731
+    for depth in (2, 3, 4):
+        for last_else in (True, False):
+            vals = ["v%d" % i for i in range(depth + 1)]
+            conds = ["c%d" % i for i in range(depth)]
+            src = " else ".join(f"{vals[i]} if {conds[i]}" for i in range(depth)) + (f" else {vals[depth]}" if last_else else "")
+            tree = nm(vals[depth]) if last_else else None
+            for i in reversed(range(depth)):
+                tree = ("?", nm(conds[i]), nm(vals[i]), tree)
+            out.append((src, "condchain", ("tree", tree)))
+    for o in BIN:
+        out.append((f"a if b else c {o} d if e else f", "condchain",
+                    ("tree", ("?", nm("b"), nm("a"), ("?", nm("e"), reference_tree(["c", "d"], [o]), nm("f"))))))
     for o1, o2 in itertools.product(BIN, repeat=2):
         out.append((f"a {o1} b if c {o2} d else e", "cond", None))
         out.append((f"a if b {o1} c", "cond", None))
@@ -231,7 +246,7 @@ def run_kparse(ctx):
             # independent oracle: binary operator precedence
             oracle_fail = None
             if ops is not None and printed:
-                want = reference_tree(["a", "b", "c", "d"][:len(ops) + 1], ops)
+                want = ops[1] if isinstance(ops, tuple) else reference_tree(["a", "b", "c", "d"][:len(ops) + 1], ops)
                 if tree != want:
                     oracle_fail = f"'{src}' parses as {tree!r}, the documented precedence gives {want!r}"
                     ctx.reject(case, oracle_fail, "C02:precedence:" + src)
@@ -311,6 +326,8 @@ def fixed_eval_cases():
         ("call", N("f1"), [C(1), N("s0")], [("p", C(2))]), ("call", N("f0"), [], []), ("call", N("u0"), [], []), ("call", C(1), [], []),
         ("[]", N("l0"), ("U", "neg", C(1))), ("[]", N("l0"), C("a")), ("sl", N("s0"), C(1), None, None), ("sl", N("l0"), None, None, ("U", "neg", C(1))),
         ("sl", N("i0"), C(1), C(2), None), ("sl", N("d0"), C(1), C(2), None), ("sl", N("l0"), None, None, C(0)),
+        ("[]", N("o1"), N("mk0")), ("[]", N("o2"), N("mk0")), ("[]", N("o1"), ("F", C("b"), "safe", [])), ("[]", N("o2"), ("F", C("b"), "e", [])),
+        ("[]", N("o1"), ("F", C("zz"), "safe", [])), ("[]", N("d0"), N("mk0")), ("[]", N("o2"), N("sk0")),
         ("D", [(C("a"), C(1)), (C("a"), C(2))]), ("D", [(("L", []), C(1))]), (".", N("o1"), "_p"), ("[]", N("o1"), C("_p")), ("[]", N("o1"), C("_q")), (".", N("o1"), "_q"),
     ]
     return [(e, 1000 + i) for i, e in enumerate(es)]
